@@ -781,6 +781,10 @@ def run_reentrant_case(ctx, res, case):
                 if idx == case["nth"] and "ch" in holder:
                     fired.append(idx)
                     del holder["ch"]
+                    holder.pop("ch2", None)       # two channels are finalised inside this write …
+                    gc.collect()
+                elif fired and "ch3" in holder and idx > fired[0]:
+                    del holder["ch3"]             # … and a third one while a deferred frame is being written
                     gc.collect()
                 out.calls.append(bytes(b))
                 return len(b)
@@ -792,6 +796,11 @@ def run_reentrant_case(ctx, res, case):
     ch_main = gw.newchannel()
     holder["ch"] = gw.newchannel()
     doomed_id = holder["ch"].id
+    more_doomed = []
+    if case["when"] == "inside-buffered":
+        holder["ch2"] = gw.newchannel()
+        holder["ch3"] = gw.newchannel()
+        more_doomed = [holder["ch2"].id, holder["ch3"].id]
     payloads = [bytes.fromhex(p) for p in case["payloads"]]
     res.count(("reentrant", case["nth"], case["when"], case["payloads"]))
     result = {}
@@ -818,6 +827,12 @@ def run_reentrant_case(ctx, res, case):
     got, ending, exc = read_all(execnet, io)
     sent = [(gb.Message.CHANNEL_DATA, ch_main.id, gb.dumps_internal(p)) for p in payloads]
     nested = (gb.Message.CHANNEL_CLOSE, doomed_id, b"")
+    extra_nested = [(gb.Message.CHANNEL_CLOSE, i, b"") for i in more_doomed]
+    if fired and any(got.count(m) != 1 for m in extra_nested):
+        res.violations.append(dict(case=case, what="frames sent by finalisers during a write / during a deferred write did not all arrive exactly once: "
+                                   "peer decodes %s then %s" % (render_msgs(got)[:240], ending)))
+        return
+    got = [m for m in got if m not in extra_nested]
     main_got = [m for m in got if m != nested]
     if not fired:
         res.stat("reentrant_not_fired")
